@@ -15,6 +15,36 @@ CLAIMED = {
              "release profile (setter debug_assert!s off). Modelled, not verified: Place/Segment accessors as Lean functions.",
         technique="Lean 4 theorems (bv_decide bit lemmas + case analysis) + exhaustive model/impl correspondence",
         design="§4 C18"),
+    "C10": dict(
+        text="Theorems over an abstract-interpreter model of the runner (lib.rs:185-337), for rule lists and word lists of any length: "
+             "applying G1++G2 is applying G1 then G2 (errors included), a result depends only on the flattened rule sequence (regrouping and "
+             "empty groups invisible), the whole word list composes on the success path, and staging through text equals the one-shot run "
+             "whenever the intermediate word survives the text round trip. Tied to the code by the `glue` correspondence (the model's scheme "
+             "instantiated with the real parser/interpreter/renderer through hooks == asca::run) and by evaluating the property itself "
+             "(every split point, regroupings) on the implementation.",
+        note="Trusted: Lean kernel, propext/Classical.choice/Quot.sound. The interpreter, parsers and renderer are abstract parameters, so the "
+             "theorems are about the runner only; whether the intermediate rendering parses back is C09's subject and enters as a hypothesis. "
+             "Sampling (not proof) ties model and code: generated rule lists x words.",
+        technique="Lean 4 theorems over abstract runner model + glue correspondence + property search on impl",
+        design="§4 C10"),
+    "C11": dict(
+        text="Theorems over the abstract runner model: run succeeds with `out` iff every line run alone succeeds with its own entry (one entry "
+             "per line, same order, each depending only on its line, the rules and the aliases), length preservation, first-failure "
+             "characterisation of errors, and the two-word-line law with the exact side conditions trim_end needs. Any list length, any interpreter.",
+        note="Trusted: Lean kernel, standard axioms. That the real interpreter carries no state from one word to the next is NOT provable in the "
+             "abstract model (apply is a function there); it is checked on the implementation by the pointwise/permutation/sublist/duplicate search, "
+             "including a focused stream of binding rules (alphas/variables) over a small inventory.",
+        technique="Lean 4 theorems over abstract runner model + glue correspondence + property search on impl",
+        design="§4 C11"),
+    "C16": dict(
+        text="Theorem trace_sound_complete over the abstract runner model: for any group list and phrase, the reported indices are strictly increasing "
+             "and in range, each reported state equals the plain run of groups 0..i and differs from the state before, every group that changed "
+             "the phrase is reported, the trace succeeds iff the run does, and the last reported state (or the input) equals the run result. "
+             "Proved by an invariant of the trace loop plus the map/fold interchange between the two loop nestings.",
+        note="Trusted: Lean kernel, standard axioms. Word equality is the abstract `weq` (Word's PartialEq). get_trace_string's text layout is "
+             "checked on the implementation only (two lines per change, names, renderings).",
+        technique="Lean 4 loop-invariant proof over abstract runner model + glue correspondence + property search on impl",
+        design="§4 C16"),
 }
 
 NOT_YET = "check not built yet in this round (see DESIGN.md §8 build order); not claimed until its theorems and correspondence suite exist"
